@@ -38,3 +38,56 @@ Section ValueInd.
     | VErr e => Hleaf (VErr e) I
     end.
 End ValueInd.
+
+(** values and instructions together (code constants hold instructions, PUSH holds a value) *)
+Section ValueInstrInd.
+  Variable P : value -> Prop.
+  Variable Q : instr -> Prop.
+  Hypothesis Hlist : forall l, Forall P l -> P (VList l).
+  Hypothesis Hmap : forall m, Forall (fun kv => P (snd kv)) m -> P (VMap m).
+  Hypothesis Hcode : forall c, Forall Q c -> P (VCode c).
+  Hypothesis Hleaf : forall v, match v with VList _ | VMap _ | VCode _ => False | _ => True end -> P v.
+  Hypothesis Hpush : forall v, P v -> Q (IPush v).
+  Hypothesis Hother : forall i, match i with IPush _ => False | _ => True end -> Q i.
+
+  Fixpoint value_instr_ind (v : value) : P v :=
+    match v with
+    | VList l =>
+        Hlist l ((fix go (l : list value) : Forall P l :=
+                    match l with [] => Forall_nil P | x :: r => Forall_cons x (value_instr_ind x) (go r) end) l)
+    | VMap m =>
+        Hmap m ((fix go (m : list (bytes * value)) : Forall (fun kv => P (snd kv)) m :=
+                   match m with
+                   | [] => Forall_nil _
+                   | (k, x) :: r => @Forall_cons _ (fun kv => P (snd kv)) (k, x) r (value_instr_ind x) (go r)
+                   end) m)
+    | VCode c =>
+        Hcode c ((fix go (c : list instr) : Forall Q c :=
+                    match c with [] => Forall_nil Q | i :: r => Forall_cons i (instr_value_ind i) (go r) end) c)
+    | VInt z => Hleaf (VInt z) I
+    | VUInt z => Hleaf (VUInt z) I
+    | VFloat f => Hleaf (VFloat f) I
+    | VBool b => Hleaf (VBool b) I
+    | VString s => Hleaf (VString s) I
+    | VBytes s => Hleaf (VBytes s) I
+    | VNull => Hleaf VNull I
+    | VIdent s => Hleaf (VIdent s) I
+    | VType s => Hleaf (VType s) I
+    | VTime ns => Hleaf (VTime ns) I
+    | VDur ns => Hleaf (VDur ns) I
+    | VErr e => Hleaf (VErr e) I
+    end
+  with instr_value_ind (i : instr) : Q i :=
+    match i with
+    | IPush v => Hpush v (value_instr_ind v)
+    | IPop => Hother IPop I | ITest => Hother ITest I | IDup => Hother IDup I | IOr => Hother IOr I
+    | IAnd => Hother IAnd I | INot => Hother INot I | INeg => Hother INeg I | IAdd => Hother IAdd I
+    | ISub => Hother ISub I | IMul => Hother IMul I | IDiv => Hother IDiv I | IMod => Hother IMod I
+    | ILt => Hother ILt I | ILe => Hother ILe I | IEq => Hother IEq I | INe => Hother INe I
+    | IGe => Hother IGe I | IGt => Hother IGt I | IIn => Hother IIn I
+    | IJmp d => Hother (IJmp d) I | IJmpCond w d => Hother (IJmpCond w d) I
+    | IMkList n => Hother (IMkList n) I | IMkDict n => Hother (IMkDict n) I
+    | IIndex => Hother IIndex I | IAccess => Hother IAccess I
+    | ICall n => Hother (ICall n) I | IFmt n => Hother (IFmt n) I
+    end.
+End ValueInstrInd.
